@@ -31,17 +31,17 @@ def keyTo (k : List (Option SV)) : Json :=
 def groupsTo (g : SubGroups) : Json :=
   Json.arr (g.map fun e => Json.mkObj [("k", keyTo e.1), ("st", Json.arr (e.2.map stTo).toArray)]).toArray
 
-def plain (g : Groups) : SubGroups := g.map fun e => (e.1.map some, e.2)
+def keysOf (mode : String) : Except String (List SV → List (List (Option SV))) :=
+  match mode with
+  | "groupby" => .ok groupByKeys
+  | "rollup" => .ok rollupKeys
+  | "cube" => .ok cubeKeys
+  | _ => .error "mode"
 
 def handle (j : Json) : Json := run do
   let ncols ← getNat j "ncols"
-  let mode ← getStr j "mode"
+  let ko ← keysOf (← getStr j "mode")
   let partsJ ← getArr j "parts"
-  let sub := fun (g : Groups) => match mode with
-    | "groupby" => Except.ok (plain g)
-    | "rollup" => .ok (addSubtotals rollupKeys g)
-    | "cube" => .ok (addSubtotals cubeKeys g)
-    | _ => .error "mode"
   match j.getObjVal? "pvs" with
   | .ok _ =>
     let pvsRaw ← svList j "pvs"
@@ -54,9 +54,9 @@ def handle (j : Json) : Json := run do
     -- `auto`: the pivot values are the sorted distinct non-null values of the pivot column
     let auto ← getBool j "auto"
     let pvs := if auto then pivotValues (parts.flatten.map (·.2.1)) else pvsRaw
-    let g := aggregatePivot ncols pvs parts
-    let gs := aggregatePivotSpec ncols pvs parts.flatten
-    return Json.mkObj [("groups", groupsTo (← sub g)), ("pvs", Json.arr (pvs.map svTo).toArray), ("spec_equal", decide (g = gs))]
+    let g := aggregatePivot ncols pvs (parts.map (expandPivot ko))
+    let gs := aggregatePivotSpec ncols pvs (expandPivot ko parts.flatten)
+    return Json.mkObj [("groups", groupsTo g), ("pvs", Json.arr (pvs.map svTo).toArray), ("spec_equal", decide (g = gs))]
   | .error _ =>
     let parts ← partsJ.mapM fun p => do
       let arr ← (fromJson? p : Except String (Array Json))
@@ -64,8 +64,11 @@ def handle (j : Json) : Json := run do
         let k ← svList r "k"; let v ← svList r "v"
         if v.length ≠ ncols then throw "row width"
         return (k, v)
-    let g := aggregate ncols parts
-    let gs := aggregateSpec ncols parts.flatten
-    return Json.mkObj [("groups", groupsTo (← sub g)), ("spec_equal", decide (g = gs))]
+    let g := aggregateSub ko ncols parts
+    let gs := aggregateSpec ncols (expand ko parts.flatten)
+    -- SPEC of every subtotal: the rows whose key agrees with it on the columns that are not rolled up, in row order
+    let direct := g.all fun e =>
+      e.2 == (List.range ncols).map fun c => summarize ((parts.flatten.filter fun r => matchesKey e.1 r.1).map fun r => r.2.getD c .null)
+    return Json.mkObj [("groups", groupsTo g), ("spec_equal", decide (g = gs) && direct)]
 
 end Driver.C14
